@@ -14,11 +14,14 @@ import (
 
 // C12 Order (stable sort by start) and Merge (ordered union, receiver wins, argument unchanged).
 
-func c12Items(r *fw.Rand, n int, tag string, span int) []*astisub.Item {
+func c12Items(r *fw.Rand, n int, tag string, span int, base, unit int64) []*astisub.Item {
 	items := make([]*astisub.Item, n)
 	for k := range items {
-		s := int64(r.Intn(span))
-		items[k] = decorate(textItem(time.Duration(s), time.Duration(s+int64(r.Intn(5))), fmt.Sprintf("%s%d", tag, k)), k+r.Intn(3))
+		s := base + int64(r.Intn(span))*unit
+		if r.P(1, 12) {
+			s += fw.Pick(r, []int64{40 * 3600e9, 2600 * 3600e9}) // a stray cue far beyond the others
+		}
+		items[k] = decorate(textItem(time.Duration(s), time.Duration(s+int64(r.Intn(5))*unit), fmt.Sprintf("%s%d", tag, k)), k+r.Intn(3))
 		if items[k].InlineStyle == nil && r.Bool() {
 			// an Aegisub layer, higher layers listed first: ordering looks at the start and at nothing else
 			layer := n - k
@@ -70,6 +73,9 @@ func c12MakeDefs(r *fw.Rand, owner string, ids []string) c12Defs {
 		}
 		if r.Bool() {
 			d.styles[id] = &astisub.Style{ID: id, InlineStyle: &astisub.StyleAttributes{SSAFontName: owner}}
+			if r.Bool() {
+				d.styles[id].InlineStyle.WebVTTStyles = []string{"::cue { color: " + owner + " }"}
+			}
 			if r.P(1, 4) {
 				d.styles[id].InlineStyle = nil
 			}
@@ -104,7 +110,11 @@ func c12Run(c *fw.Ctx) fw.Outcome {
 	if r.P(1, 10) {
 		nb = 0
 	}
-	aItems, bItems := c12Items(r, na, "a", span), c12Items(r, nb, "b", span)
+	// the instants: nanoseconds around zero, or ordinary programme times, or hours into a long tape, or counted from
+	// the Unix epoch as live streams do
+	base := fw.Pick(r, []int64{0, 0, 0, 0, 40 * 3600e9, 100 * 3600e9, 2600 * 3600e9, 1790000000e9 + 1})
+	unit := fw.Pick(r, []int64{1, 1, 1e6, 1e9})
+	aItems, bItems := c12Items(r, na, "a", span, base, unit), c12Items(r, nb, "b", span, base, unit)
 	key := fw.Mix(fw.HashString(c12Desc(aItems)), fw.HashString(c12Desc(bItems)), uint64(c.Idx))
 
 	// Order
@@ -135,7 +145,7 @@ func c12Run(c *fw.Ctx) fw.Outcome {
 	}
 
 	// Merge
-	ids := []string{"x", "y", "z", "w"}
+	ids := []string{"x", "y", "z", "w", "astisub-webvtt-default-style-id"}
 	da, db := c12MakeDefs(r, "A", ids), c12MakeDefs(r, "B", ids)
 	kind := r.Intn(4)
 	var a *astisub.Subtitles
@@ -234,6 +244,17 @@ func c12Run(c *fw.Ctx) fw.Outcome {
 	for k, v := range b.Styles {
 		bStyles[k] = v
 	}
+	aDefsBefore := map[string]string{}
+	for k, v := range a.Regions {
+		if v != nil {
+			aDefsBefore["region "+k] = fmt.Sprintf("%+v / %+v", *v, v.InlineStyle)
+		}
+	}
+	for k, v := range a.Styles {
+		if v != nil {
+			aDefsBefore["style "+k] = fmt.Sprintf("%+v / %+v", *v, v.InlineStyle)
+		}
+	}
 	if p := guard(func() { a.Merge(b) }); p != "" {
 		return fw.Bad(key, nil, "Merge (receiver kind %d, %d+%d cues, B has %d regions %d styles): %s", kind, na, nb, len(db.regions), len(db.styles), p)
 	}
@@ -272,6 +293,17 @@ func c12Run(c *fw.Ctx) fw.Outcome {
 		}
 		if got := a.Styles[id]; got != wantS {
 			return fw.Bad(key, nil, "Merge: style %q in A is %v, expected %v", id, got, wantS)
+		}
+	}
+	// A's own definitions are what they were (winning a clash does not mean absorbing the loser)
+	for k, v := range a.Regions {
+		if before, ok := aDefsBefore["region "+k]; ok && v != nil && before != fmt.Sprintf("%+v / %+v", *v, v.InlineStyle) {
+			return fw.Bad(key, nil, "Merge changed the receiver's own region %q: %s -> %s", k, before, fmt.Sprintf("%+v / %+v", *v, v.InlineStyle))
+		}
+	}
+	for k, v := range a.Styles {
+		if before, ok := aDefsBefore["style "+k]; ok && v != nil && before != fmt.Sprintf("%+v / %+v", *v, v.InlineStyle) {
+			return fw.Bad(key, nil, "Merge changed the receiver's own style %q: %s -> %s", k, before, fmt.Sprintf("%+v / %+v", *v, v.InlineStyle))
 		}
 	}
 	if len(a.Regions) > len(ids) || len(a.Styles) > len(ids) {
